@@ -23,6 +23,16 @@ import (
 type c01Vec [2]int64 // cpu (cores), memory (units)
 
 func (v c01Vec) add(o c01Vec) c01Vec { return c01Vec{v[0] + o[0], v[1] + o[1]} }
+
+// nonneg reads a min vector numerically (an undeclared dimension, written as a negative component, counts as 0)
+func (v c01Vec) nonneg() c01Vec {
+	for i := range v {
+		if v[i] < 0 {
+			v[i] = 0
+		}
+	}
+	return v
+}
 func (v c01Vec) min(o c01Vec) c01Vec {
 	r := v
 	for i := range r {
@@ -76,6 +86,14 @@ func (q c01QSpec) obj() *v1alpha1.ElasticQuota {
 	eq := &v1alpha1.ElasticQuota{
 		ObjectMeta: metav1.ObjectMeta{Name: q.Name, Namespace: "ns", Labels: map[string]string{}, Annotations: map[string]string{}},
 		Spec:       v1alpha1.ElasticQuotaSpec{Max: c01RL(q.Max), Min: c01RL(q.Min)},
+	}
+	// a negative min component stands for "min does not declare this dimension at all" (max still does): a min that DROPS a
+	// dimension is a different request from one that sets it to zero (seed C02-8)
+	if q.Min[0] < 0 {
+		delete(eq.Spec.Min, corev1.ResourceCPU)
+	}
+	if q.Min[1] < 0 {
+		delete(eq.Spec.Min, corev1.ResourceMemory)
 	}
 	eq.Labels[extension.LabelQuotaParent] = q.Parent
 	eq.Labels[extension.LabelQuotaIsParent] = fmt.Sprint(q.IsParent)
@@ -411,7 +429,7 @@ func (s *c01Sys) refGroup(g string, out map[string]*c01Fig) *c01Fig {
 	max := c01Vec{c01Huge * 1000, c01Huge}
 	if q, ok := s.quotas[g]; ok {
 		if !q.Lend {
-			f.request = f.request.max(q.Min.milli())
+			f.request = f.request.max(q.Min.nonneg().milli())
 		}
 		max = q.Max.milli()
 	}
